@@ -77,6 +77,11 @@ func TestC06(t *testing.T) {
 		if os.Getenv("VERIF_C06_RESPONDER_ONLY") != "" {
 			side = pauseSides[2+r.Intn(4)]
 		}
+		if p.Sub == "reactive" {
+			// the requestor answers the RequestPaused status at once with an update whose hook unpauses:
+			// the resume travels towards the responder while the pause is still being recorded there
+			side = "responder-block-hook-reactive-update-unpause"
+		}
 		nBlocks := len(c.Exp.Loads)
 		k := int64(1 + r.Intn(nBlocks))
 		timing := []string{"after-quiescence", "immediately", "after-delay"}[r.Intn(3)]
@@ -127,6 +132,31 @@ func TestC06(t *testing.T) {
 						pauseCh <- struct{}{}
 					}
 				}
+			case "responder-block-hook-reactive-update-unpause":
+				if r.Intn(2) == 0 {
+					x.Pert.Pin("qe.beforeFinishTask", time.Duration(1+r.Intn(5))*time.Millisecond)
+				}
+				x.B.OnOutgoingBlock = func(pp peer.ID, rq graphsync.RequestData, b graphsync.BlockData, a graphsync.OutgoingBlockHookActions) {
+					if b.Index() >= k && atomic.CompareAndSwapInt32(&pausedOnce, 0, 1) {
+						a.PauseResponse()
+						pauseCh <- struct{}{}
+					}
+				}
+				x.A.OnResponse = func(pp peer.ID, rs graphsync.ResponseData, a graphsync.IncomingResponseHookActions) {
+					if rs.Status() == graphsync.RequestPaused {
+						a.UpdateRequestWithExtensions(graphsync.ExtensionData{Name: verifExt, Data: basicnode.NewString("unpause")})
+					}
+				}
+				x.B.OnUpdate = func(pp peer.ID, rq graphsync.RequestData, u graphsync.RequestData, a graphsync.RequestUpdatedHookActions) {
+					if d, ok := u.Extension(verifExt); ok && d != nil {
+						if s, _ := d.AsString(); s == "unpause" {
+							umu.Lock()
+							unpauseSeqs = append(unpauseSeqs, x.W.Log.Add("update-hook-unpause", side, ""))
+							umu.Unlock()
+							a.UnpauseResponse()
+						}
+					}
+				}
 			case "responder-request-hook", "responder-request-hook-unpause-via-update":
 				x.B.OnRequest = func(pp peer.ID, rq graphsync.RequestData, a graphsync.IncomingRequestHookActions) {
 					a.ValidateRequest()
@@ -154,7 +184,7 @@ func TestC06(t *testing.T) {
 			inc = "pause point never reached and request not finished"
 		}
 		resumeAttempts := 0
-		if paused {
+		if paused && side != "responder-block-hook-reactive-update-unpause" {
 			switch timing {
 			case "after-quiescence":
 				if ok, why := x.W.Quiesce(); !ok {
@@ -244,7 +274,13 @@ func TestC06(t *testing.T) {
 		case inc != "":
 			rep.Inconclusive("case %d: %s", ci, inc)
 		case hung:
-			rep.Violation(ci, "C06/request-never-finished/"+side, "system quiescent after the resume but the request is still open", detail())
+			sig := "C06/request-never-finished/" + side
+			if (side == "requestor-api" || side == "requestor-block-hook") && reRequestBeforeDrained(wire, x, x.Req.ID) {
+				// recorded finding, second symptom: the re-request reached the responder while the old
+				// execution for the same id was still being retired there and was swallowed with it
+				sig = "C06/requestor-resume-before-old-exchange-drained"
+			}
+			rep.Violation(ci, sig, "system quiescent after the resume but the request is still open", detail())
 		default:
 			// known-finding predicate, from wire and listener events only
 			notDrained := false
